@@ -171,5 +171,33 @@ func runGlobalMapAlias(c *Ctx, rule string) {
 			}
 		}
 	}
+	// a package-level array used as scratch space: a slice of it handed to an appending/copying call is
+	// written by every caller at once
+	for _, fn := range p.Funcs {
+		if fn.Pkg != sp || fn.Name() == "init" {
+			continue
+		}
+		for _, b := range fn.Blocks {
+			for _, ins := range b.Instrs {
+				sl, ok := ins.(*ssa.Slice)
+				if !ok {
+					continue
+				}
+				g, ok := sl.X.(*ssa.Global)
+				if !ok || g.Pkg != sp {
+					continue
+				}
+				n++
+				for _, r := range refs(sl) {
+					if call, ok := r.(ssa.CallInstruction); ok {
+						nm := calleeName(call.Common())
+						if strings.Contains(nm, "Append") || nm == "builtin.append" || nm == "builtin.copy" {
+							bad = append(bad, fnName(fn)+" hands a slice of the package-level array "+g.Name()+" to "+nm+" at "+p.Pos(instrPos(r))+": every call (and every goroutine) writes the same scratch memory, so concurrent or nested uses print each other's digits")
+						}
+					}
+				}
+			}
+		}
+	}
 	c.Check(len(bad) == 0, rule, "valid", "global-map-alias", token.NoPos, fmt.Sprintf("%d loads of package-level maps/slices, none stored into an object (maps: nor returned)", n), uniqJoin(bad, 3))
 }
